@@ -192,6 +192,8 @@ class CaseTag(Tag):
         stream.expect_tag("endcase")
         end_block_tag = stream.current()
         assert isinstance(end_block_tag, TagToken)
+        # With no `when` or `else` blocks, the carry is still that of the `case` tag.
+        stream.trim_carry = end_block_tag.wc[-1]
 
         return self.node_class(
             token,
